@@ -425,6 +425,12 @@ class C15(SmallSuite):
             shared_points = True
         else:
             shared_points = False
+        for mk in members:
+            if rng.random() < 0.25:
+                # a twin of the first point that differs from it in the 10th-11th significant digit
+                p0 = pts[mk][0]
+                if p0["kind"] == "frac" and not p0.get("outside"):
+                    pts[mk].append({"kind": "frac", "t": [min(1.0, v + 1e-10) for v in p0["t"]]})
         if rng.random() < 0.5:
             # sibling members of one class (same box) are asked about exactly the same points
             first = {}
